@@ -24,8 +24,13 @@ META = {
     "assumptions": [
         "CPython 3.12 semantics of ==, <, in, %, len, isinstance on JSON types (the reference "
         "model re-derives them by case analysis)",
-        "ill-typed argument values and vacuous key lists on non-mappings are judged for totality "
-        "and shape only (DESIGN 3.3)",
+        "ill-typed argument values and vacuous key lists on non-mappings, which the case analysis "
+        "leaves open, are judged by the comparison as documented (ref._PY: one Python expression per "
+        "callable, transcribed from the documentation; TypeError / AttributeError / ZeroDivisionError / "
+        "ValueError = 'not defined' = does not satisfy); totality and shape only where that raises "
+        "anything else",
+        "after the first judgement each live container is edited in place (same kind and size) into the "
+        "next container of the family and filtered again by the same condition object",
     ],
     "bounds": {
         "quick": {"containers": "single-item over all of V (29) and K (11); lists of 2 over V8; "
@@ -132,17 +137,27 @@ def run_unit(unit, tier):
     sing, mult = _docs(tier)
     for ti, t in enumerate(leaf_terms(cls, call)):
         for di, doc in enumerate(sing):
-            check_case(res, t, doc, full=True, key=(cls, call, ti, 0, di))
+            check_case(res, t, doc, full=True, key=(cls, call, ti, 0, di), nxt=_next(sing, di))
         for di, doc in enumerate(mult):
-            check_case(res, t, doc, full=False, key=(cls, call, ti, 1, di))
+            check_case(res, t, doc, full=False, key=(cls, call, ti, 1, di), nxt=_next(mult, di))
         if ti == 0:
             res.sample({"term": t, "doc": sing[0]})
     return res
 
 
+def _next(docs, di):
+    """The following document of the family when it is a container of the same kind and size (the
+    live document is then edited in place into it and filtered again)."""
+    if di + 1 < len(docs):
+        a, b = docs[di], docs[di + 1]
+        if type(a) is type(b) and len(a) == len(b):
+            return b
+    return None
+
+
 def replay(case):
     res = Result()
-    check_case(res, case["term"], case["doc"], full=True, key=("replay",))
+    check_case(res, case["term"], case["doc"], full=True, key=("replay",), nxt=case.get("then"))
     return list(res.violations.values())
 
 
@@ -159,12 +174,14 @@ def _same_items(a, b):
     return True
 
 
-def check_case(res, t, doc, full, key):
+def check_case(res, t, doc, full, key, nxt=None):
     _, cls, call, args, kwargs = t
     name = "%s.%s" % (cls, call)
     res.count("evaluations")
     res.state(*key)
     case = {"term": t, "doc": doc}
+    if nxt is not None:
+        case["then"] = nxt
     try:
         cond = T.build_cond(t)
     except Exception as e:  # the DSL cannot build it
@@ -222,6 +239,17 @@ def check_case(res, t, doc, full, key):
                 return
         else:
             all_exact = False
+            # an argument outside the case analysis: the comparison as documented, expression
+            # for expression, an undefined comparison counting as "does not satisfy"
+            py = ref.pythonic_holds(t, items[i][0], items[i][1])
+            if py is not None:
+                res.count("oracle_documented_expression")
+                if got is not py:
+                    res.violation("meaning-ill-typed:%s" % name,
+                                  "%s on item %r (key/index %r): implementation says %r, the documented "
+                                  "comparison evaluates to %r" % (T.show(t), items[i][1], items[i][0], got, py),
+                                  case, observed=result, expected=py)
+                    return
     if all_exact:
         res.count("oracle_exact")
         res.count("validated")
@@ -275,3 +303,38 @@ def check_case(res, t, doc, full, key):
         res.violation("raises:%s:entry:%s" % (type(e).__name__, name),
                       "an alternative entry point raised %r" % (e,), case, observed=repr(e))
         return
+    # ---- the same live container, edited in place by its owner (same size), filtered again by the
+    # same condition object: the answer is the meaning on what the container holds *now*
+    if nxt is None:
+        return
+    new = fresh(nxt)
+    if is_list:
+        d[:] = new
+    else:
+        d.clear()
+        d.update(new)
+    items2 = ref.items_of(d)
+    res.count("transitions")
+    res.count("refiltered_after_edit")
+    try:
+        fd2 = cond.filter(d)
+        got2, data2, keys2 = list(fd2.result), list(fd2.data), list(fd2.keys)
+    except Exception as e:
+        res.violation("raises:%s:after-edit:%s" % (type(e).__name__, name),
+                      "filtering the edited container raised %r" % (e,), case, observed=repr(e))
+        return
+    want2 = []
+    for k, v in items2:
+        w, ex = ref.leaf_holds(t, k, v)
+        if not ex:
+            w = ref.pythonic_holds(t, k, v)
+        want2.append(w)
+    ok = len(got2) == len(want2) and all(w is None or g is w for g, w in zip(got2, want2))
+    if ok:
+        ok = (_same_items(data2, [v for (k, v), r in zip(items2, got2) if r])
+              and _same_items(keys2, [k for (k, v), r in zip(items2, got2) if r]))
+    if not ok:
+        res.violation("stale-after-edit:%s" % name,
+                      "%s filtered %r, the container was then edited in place to %r and filtered again: the "
+                      "second answer is not the meaning on the current items" % (T.show(t), doc, nxt), case,
+                      observed=(got2, data2, keys2), expected=want2)
